@@ -36,7 +36,12 @@ def gen(rng, tier):
     custom = rng.random() < 0.2
     cfg = {"max_genes": 3, "max_tx": 2, "shuffle": rng.random() < 0.4, "shuffle_within": rng.random() < 0.4,
            "explicit_tx": rng.random() < 0.35, "explicit_gene": rng.random() < 0.35, "explicit_odd": rng.random() < 0.5,
-           "explicit_source": rng.choice(["src", "ensembl"]), "gene_level": rng.random() < 0.3}
+           "explicit_source": rng.choice(["src", "ensembl"]), "gene_level": rng.random() < 0.3,
+           "odd_ids": rng.random() < 0.15, "tx_two_genes": rng.random() < 0.15}
+    if rng.random() < 0.08:
+        cfg["pool"] = [1, 100, (1 << 29) - 100, (1 << 29) - 1, (1 << 29) + 5, (1 << 29) + 100]  # exons on both sides of 2**29
+    if cfg["explicit_gene"] or cfg["gene_level"]:
+        cfg["odd_ids"] = False  # a line with one attribute only would leave the role of its ';' ambiguous
     if custom:
         cfg.update({"transcript_key": "tid", "gene_key": "gid", "subfeature": "part"})
     long_run = rng.random() < 0.04  # a minority of long inputs (batch-size / buffer effects)
